@@ -36,7 +36,7 @@ def envFor (net : Addr.Network) : Env where
   networkName := net.networkName.toList
   parseAddress s :=
     match Addr.parseAddress C08.realEnv net (String.ofList s) with
-    | .ok (some i) => .contract (i.field "hash160")
+    | .ok (some i) => .contract i.typeName (i.field "hash160")
     | _ => .pyNone
   p2pkhAddress h :=
     match Addr.forP2pkh C08.realEnv net h with
